@@ -485,11 +485,11 @@ def run(rep, tier, seed, workers):
                      partials=(0,)),
                 dict(prop='C05', kind='M', depth=3)]
     else:
-        plan = [dict(prop='C05', kind='F', bufsize=8192, depth=3,
+        plan = [dict(prop='C05', kind='F', bufsize=8192, depth=4,
                      partials=(0, 1, 7, 30)),
-                dict(prop='C05', kind='F', bufsize=32, depth=2,
+                dict(prop='C05', kind='F', bufsize=32, depth=3,
                      partials=(0, 1, 7, 30)),
-                dict(prop='C05', kind='M', depth=3)]
+                dict(prop='C05', kind='M', depth=4)]
     rep.rule = (
         'for every prefix history h up to the depth and every victim (abort '
         'after 0-2 stores / after vote with and without a read in between; '
